@@ -3,6 +3,7 @@ import VaxisModel.Lemmas.ConcFlag
 import VaxisModel.Model.ConcSession
 import VaxisModel.Witness.F53
 import VaxisModel.Witness.F13
+import VaxisModel.Witness.F210
 import VaxisModel.Gen.Conc
 
 /-!
@@ -152,40 +153,40 @@ example : Inv { qcap := 2, queueLen := 2, consumer := false, inbuf := [some 1, n
 
 /-! ### histories: any number of Suspend/Resume cycles -/
 
-/-- The histories of a session: scheduler labels at any time; terminal input and SIGWINCH at any
-time; `Close` from any goroutine, a kill signal, a panic of an input goroutine at any time except
-while the main goroutine is inside a bare `Suspend` (`vx.suspended` is a plain field: the library
-does not synchronise `Suspend` with a concurrent `Close`); `Suspend` and `Resume` by the sequential
-main goroutine (when nobody is inside `Close`/`Suspend`; `Suspend` with no kill signal pending;
-`Resume` before `Close`, as soon as `Suspend` has returned — the previous input goroutine may still
-be alive). -/
+/-- The histories of a session: scheduler labels at any time; terminal input, SIGWINCH and kill
+signals at any time; `Close` and `Suspend` from any goroutine at any time (F210 repaired: `Suspend`
+and `Resume` are serialised by `vx.suspendMu`), a panic of an input goroutine at any time; `Resume`
+by the application after its `Suspend` has returned: nobody inside `Close`/`Suspend`, the session not
+closed — the previous input goroutine may still be alive.  That side condition of `Resume` is the
+only assumption on the environment. -/
 inductive SessionReach (s0 : SSys) : SSys → Prop
   | init : SessionReach s0 s0
   | sched {s s'} (l : SLabel) : SessionReach s0 s → l.sched = true → snext s l = some s' → SessionReach s0 s'
   | input {s s'} (u : Option Nat) : SessionReach s0 s → snext s (.termInput u) = some s' → SessionReach s0 s'
   | winch {s s'} : SessionReach s0 s → snext s .winch = some s' → SessionReach s0 s'
-  | signal {s s'} : SessionReach s0 s → snext s .signal = some s' → sumBy fSusp s.callers = 0 → SessionReach s0 s'
-  | panic {s s'} : SessionReach s0 s → snext s (.input .panic) = some s' → sumBy fSusp s.callers = 0 → SessionReach s0 s'
-  | panicOld {s s'} (j : Nat) : SessionReach s0 s → snext s (.old j .panic) = some s' → sumBy fSusp s.callers = 0 → SessionReach s0 s'
-  | close {s s'} : SessionReach s0 s → snext s .callClose = some s' → sumBy fSusp s.callers = 0 → SessionReach s0 s'
-  | suspend {s s'} : SessionReach s0 s → snext s .callSuspend = some s' → idle s → s.killSig = false → SessionReach s0 s'
+  | signal {s s'} : SessionReach s0 s → snext s .signal = some s' → SessionReach s0 s'
+  | panic {s s'} : SessionReach s0 s → snext s (.input .panic) = some s' → SessionReach s0 s'
+  | panicOld {s s'} (j : Nat) : SessionReach s0 s → snext s (.old j .panic) = some s' → SessionReach s0 s'
+  | close {s s'} : SessionReach s0 s → snext s .callClose = some s' → SessionReach s0 s'
+  | suspend {s s'} : SessionReach s0 s → snext s .callSuspend = some s' → SessionReach s0 s'
   | resume {s s'} : SessionReach s0 s → snext s .resume = some s' → idle s → s.closedFlag = false → SessionReach s0 s'
 
-/-- **Any number of cycles.** The invariant holds in every state of every history of a session
-that starts in an invariant state (e.g. a running session, `inv_running`): so `shutdown_completes`
-applies after any number of Suspend/Resume cycles, any input, signals and `Close` calls — every
-`Suspend` and every `Close` returns under every schedule. -/
+/-- **Any number of cycles, any concurrency.** The invariant holds in every state of every history
+of a session that starts in an invariant state (e.g. a running session, `inv_running`): so
+`shutdown_completes` applies after any number of Suspend/Resume cycles, any input, signals, panics,
+and `Close` / `Suspend` calls from any goroutines at any moments — every `Suspend` and every `Close`
+returns under every schedule. -/
 theorem session_invariant (s0 s : SSys) (h0 : Inv s0) (h : SessionReach s0 s) : Inv s := by
   induction h with
   | init => exact h0
   | sched l _ hl hn ih => exact inv_sched _ _ l hl ih hn
   | input u _ hn ih => exact inv_termInput _ _ u ih hn
   | winch _ hn ih => exact inv_winch _ _ ih hn
-  | signal _ hn hs ih => exact inv_signal _ _ ih hn hs
-  | panic _ hn hs ih => exact inv_input _ _ _ ih hn (fun _ => hs)
-  | panicOld j _ hn hs ih => exact inv_old _ _ j _ ih hn (fun _ => hs)
-  | close _ hn hs ih => exact inv_callClose _ _ ih hn hs
-  | suspend _ hn hi hk ih => exact inv_callSuspend _ _ ih hn hi hk
+  | signal _ hn ih => exact inv_signal _ _ ih hn
+  | panic _ hn ih => exact inv_input _ _ _ ih hn
+  | panicOld j _ hn ih => exact inv_old _ _ j _ ih hn
+  | close _ hn ih => exact inv_callClose _ _ ih hn
+  | suspend _ hn ih => exact inv_callSuspend _ _ ih hn
   | resume _ hn hi ho ih => exact inv_resume _ _ ih hn hi ho
 
 /-- Non-vacuity: two Suspend/Resume cycles and a Close, each run to rest by the scheduler that lets
@@ -226,15 +227,21 @@ theorem former_stuck_states_complete :
 /-! ### the source facts the theorems need -/
 
 /-- `Close` tests and sets `vx.closed` under `closeMu`, posts the quit event, defers
-`close(chQuit)`, runs `Suspend`, closes the console; `Suspend`: the `suspended` guard, close signal,
-DA1 query, wait; `Resume`: `openTty`, then `vx.suspended = false`. (Locals, logging and terminal
+`close(chQuit)`, runs `Suspend`, closes the console; `Suspend`: under `suspendMu` the `suspended` guard, close
+signal, DA1 query, wait; `Resume`: under `suspendMu` `openTty`, then `vx.suspended = false`. (Locals, logging and terminal
 restoration are not part of the skeleton.) -/
 theorem close_shape :
     Gen.Conc.skeleton_Close = ["vx.closeMu.Lock", "if:vx.closed", "vx.closeMu.Unlock", "set:vx.closed=true",
       "vx.closeMu.Unlock", "vx.PostEvent", "defer:close(vx.chQuit)", "vx.Suspend", "vx.console.Close"] ∧
-    Gen.Conc.skeleton_Suspend = ["if:vx.suspended", "set:vx.suspended=true", "vx.parser.Close", "io.WriteString",
-      "vx.parser.WaitClose"] ∧
-    Gen.Conc.skeleton_Resume = ["vx.openTty", "set:vx.suspended=false"] := by decide +kernel
+    Gen.Conc.skeleton_Suspend = ["vx.suspendMu.Lock", "defer:vx.suspendMu.Unlock()", "if:vx.suspended", "set:vx.suspended=true",
+      "vx.parser.Close", "io.WriteString", "vx.parser.WaitClose"] ∧
+    Gen.Conc.skeleton_Resume = ["vx.suspendMu.Lock", "defer:vx.suspendMu.Unlock()", "vx.openTty", "set:vx.suspended=false"] := by
+  decide +kernel
+
+/-- `Suspend` and `Resume` run under `vx.suspendMu` from their first statement to their return (F210
+repaired): the `suspLock` of the LTS. -/
+theorem suspend_serialised :
+    suspendLockedOf Gen.Conc.skeleton_Suspend = true ∧ suspendLockedOf Gen.Conc.skeleton_Resume = true := by decide +kernel
 
 /-- The hypotheses `Inv.order` and `Inv.clears` are facts of the source: `Suspend` signals the parser
 before it writes the DA1 query that wakes the reader, `Resume` clears `vx.suspended`, and `Close`
